@@ -6317,3 +6317,102 @@ func ruleCroltEscape(prop string) ruleFn {
 		}
 	}
 }
+
+// PROP-TYPED (C13, C19): what the engine reads back typed is checked when it is written.
+func rulePropTyped(prop string) ruleFn {
+	return func(w *World, r *Report) {
+		r.Rule("PROP-TYPED", "sibling agreement between the readers and the writer of the location-level properties the engine itself depends on: for every property name that core or sys reads with a typed reader (a constant name handed to GetPropString, or to GetProp followed by a type switch — writeKey, readKey, enabled, createdAt, parents, cacheTTL), the validation that core.PrepareFact applies to a location-level property fact (a function it calls that compares the property name with string constants) has a case for that name.  An unreadable value that is stored is a value every later request trips over: a numeric write key blocks every write including its own repair, a non-list `parents` fails every event, a boolean `enabled` is ignored", 4)
+		prep := w.Func("core", "PrepareFact")
+		// the validator: a function called by PrepareFact that compares a string parameter with constants
+		var validator *ssa.Function
+		names := map[string]bool{}
+		allInstrs(prep, func(in ssa.Instruction) {
+			c := callOf(in)
+			if c == nil || c.StaticCallee() == nil || !w.IsRulio(c.StaticCallee()) {
+				return
+			}
+			f := c.StaticCallee()
+			got := map[string]bool{}
+			allInstrs(f, func(x ssa.Instruction) {
+				bo, ok := x.(*ssa.BinOp)
+				if !ok || bo.Op != token.EQL {
+					return
+				}
+				for _, pr := range [][2]ssa.Value{{bo.X, bo.Y}, {bo.Y, bo.X}} {
+					if _, isParam := pr[0].(*ssa.Parameter); isParam {
+						if s, ok := constString(pr[1]); ok {
+							got[s] = true
+						}
+					}
+				}
+			})
+			if len(got) >= 2 && len(got) > len(names) {
+				validator, names = f, got
+			}
+		})
+		// the readers
+		type reader struct {
+			name, where string
+		}
+		var readers []reader
+		seen := map[string]bool{}
+		for _, fn := range w.Funcs {
+			rel := w.RelPkg(fn)
+			if (rel != "core" && rel != "sys") || isTestFile(w, fn) {
+				continue
+			}
+			allInstrs(fn, func(in ssa.Instruction) {
+				c := callOf(in)
+				if c == nil || c.StaticCallee() == nil {
+					return
+				}
+				f := c.StaticCallee()
+				if f.Name() != "GetPropString" && f.Name() != "GetProp" {
+					return
+				}
+				if !w.IsRulio(f) {
+					return
+				}
+				// location-level: for core.GetProp(ctx, state, id, prop, def) the id must be the constant ""
+				args := c.Args
+				var nameArg ssa.Value
+				switch {
+				case f.Name() == "GetPropString" && f.Signature.Recv() == nil && len(args) >= 3:
+					nameArg = args[2]
+				case f.Name() == "GetPropString" && len(args) >= 3:
+					nameArg = args[2]
+				case f.Name() == "GetProp" && f.Signature.Recv() == nil && len(args) >= 4:
+					if s, ok := constString(args[2]); !ok || s != "" {
+						return
+					}
+					nameArg = args[3]
+				case f.Name() == "GetProp" && len(args) >= 3:
+					nameArg = args[2]
+				}
+				if nameArg == nil {
+					return
+				}
+				if s, ok := constString(nameArg); ok && !seen[s] {
+					seen[s] = true
+					readers = append(readers, reader{s, w.PosOf(in)})
+				}
+			})
+		}
+		if len(readers) == 0 {
+			r.exempt("PROP-TYPED", "readers", "", "no typed reader of a location-level property with a constant name found: not decided")
+			return
+		}
+		sort.Slice(readers, func(i, j int) bool { return readers[i].name < readers[j].name })
+		for _, rd := range readers {
+			key := "prop=" + rd.name
+			switch {
+			case validator == nil:
+				r.violation("PROP-TYPED", key, rd.where, "the engine reads the location property `"+rd.name+"` with a typed reader, and PrepareFact validates no property values at all: an unreadable value is stored and trips every later request")
+			case !names[rd.name]:
+				r.violation("PROP-TYPED", key, rd.where, "the engine reads the location property `"+rd.name+"` with a typed reader, but "+fname(validator)+" has no case for it")
+			default:
+				r.ok("PROP-TYPED", key, rd.where, "validated by "+fname(validator)+" when it is written")
+			}
+		}
+	}
+}
